@@ -44,7 +44,7 @@ def pairs(D):
 # mesh generator: grid based conforming meshes with holes, random numbering and orientation
 # ---------------------------------------------------------------------------------------------
 
-def base_cells(rng, shape, big=False):
+def base_cells(rng, shape, big=False, grid=None, keep=None):
     """returns (coords list of tuples of Fraction, cells as vertex tuples, grid position of every cell)"""
     D = DIM[shape]
     if D == 1:
@@ -71,8 +71,9 @@ def base_cells(rng, shape, big=False):
                         cells.append(t)
                         pos.append((i, j))
     else:
-        nx, ny, nz = rng.choice([(1, 1, 1), (2, 1, 1), (2, 2, 1), (2, 2, 2), (3, 2, 1), (3, 1, 1)] if not big
-                                else [(3, 2, 2), (3, 3, 1), (4, 2, 1)])
+        nx, ny, nz = grid if grid else rng.choice(
+            [(1, 1, 1), (2, 1, 1), (2, 2, 1), (2, 2, 2), (3, 2, 1), (3, 1, 1)] if not big
+            else [(3, 2, 2), (3, 3, 1), (4, 2, 1)])
         cells, pos = [], []
         for k in range(nz):
             for j in range(ny):
@@ -91,7 +92,11 @@ def base_cells(rng, shape, big=False):
                             cells.append(tuple(t))
                             pos.append((i, j, k))
     # holes: keep a random subset of the grid cells (gives non-convex / disconnected / vertex-touching meshes)
-    if len(cells) > 1 and rng.random() < 0.35:
+    if keep is not None:       # deterministic selection of grid cells
+        sel = [k for k in range(len(cells)) if pos[k] in keep]
+        cells = [cells[k] for k in sel]
+        pos = [pos[k] for k in sel]
+    elif grid is None and len(cells) > 1 and rng.random() < 0.35:
         gp = sorted(set(pos))
         keep = set(rng.sample(gp, rng.randrange(max(1, len(gp) // 2), len(gp) + 1)))
         sel = [k for k in range(len(cells)) if pos[k] in keep]
@@ -123,10 +128,10 @@ def base_cells(rng, shape, big=False):
     return coords, vcells, pos
 
 
-def build_mesh(rng, shape, big=False):
+def build_mesh(rng, shape, big=False, grid=None, keep=None):
     """full index sets of a conforming mesh, numbered and oriented at random"""
     D = DIM[shape]
-    coords, vcells, pos = base_cells(rng, shape, big)
+    coords, vcells, pos = base_cells(rng, shape, big, grid, keep)
     IS = {}
     num = [len(coords)] + [0] * D
     num[D] = len(vcells)
@@ -231,6 +236,59 @@ def gen_extract(rng, big=False):
     return "extract %s %s %s" % (shape, fmt_mesh(mesh, False), fmt_graph(n_img, rows))
 
 
+# deterministic 3-D contact configurations: (name, grid, kept grid cells or None, rank of a grid position)
+def _contact_configs():
+    cube2 = [(i, j, k) for k in range(2) for j in range(2) for i in range(2)]
+    cfgs = []
+    # 2x2x2, one grid cell per rank: every rank has 3 face-, 3 edge- and 1 vertex-only neighbour
+    cfgs.append(("2x2x2-one-cell-per-rank", (2, 2, 2), None, lambda q: cube2.index(q)))
+    # 3x3x3 checkerboards
+    cfgs.append(("3x3x3-checker-2", (3, 3, 3), None, lambda q: sum(q) % 2))
+    cfgs.append(("3x3x3-checker-3", (3, 3, 3), None, lambda q: sum(q) % 3))
+    cfgs.append(("3x3x3-parity-8", (3, 3, 3), None, lambda q: (q[0] % 2) + 2 * (q[1] % 2) + 4 * (q[2] % 2)))
+    # only the 'black' cells of a 3x3x3 checkerboard exist (edge / vertex contacts only), one cell per rank
+    black = [(i, j, k) for k in range(3) for j in range(3) for i in range(3) if (i + j + k) % 2 == 0]
+    cfgs.append(("3x3x3-black-cells-only", (3, 3, 3), set(black), lambda q: black.index(q)))
+    # L-shapes in a 2x2x2 block: an L of three cells, its face / edge / vertex-only neighbours as single cells
+    lpos = {(0, 0, 0): 0, (1, 0, 0): 0, (0, 1, 0): 0, (1, 1, 0): 1, (0, 0, 1): 2, (1, 1, 1): 3, (1, 0, 1): 4}
+    cfgs.append(("L-shape-mixed", (2, 2, 2), set(lpos), lambda q: lpos[q]))
+    # two L-shapes interlocked in a 3x2x2 block plus a vertex-only cell
+    l2 = {(0, 0, 0): 0, (1, 0, 0): 0, (0, 1, 0): 0, (2, 1, 1): 1, (1, 1, 1): 1, (2, 0, 1): 1, (2, 1, 0): 2,
+          (0, 0, 1): 3, (1, 1, 0): 4}
+    cfgs.append(("L-shapes-3x2x2", (3, 2, 2), set(l2), lambda q: l2[q]))
+    # vertex-only pair + face pair in one line of discovery: diagonal cells of a 2x2x2 block
+    diag = {(0, 0, 0): 0, (1, 1, 1): 1, (1, 0, 0): 2, (0, 1, 1): 3}
+    cfgs.append(("diagonal-cells", (2, 2, 2), set(diag), lambda q: diag[q]))
+    return cfgs
+
+
+CONTACT_CONFIGS = _contact_configs()
+
+
+def gen_contacts(rng, op="extract", reps=2):
+    """3-D partitions with face-, edge-only and vertex-only contacts next to each other (hexahedra and tetrahedra),
+    produced on EVERY run; the numbering (hence the discovery order of the neighbours) is randomised per seed"""
+    out = []
+    for name, grid, keep, rank_of in CONTACT_CONFIGS:
+        for shape in ("h3", "s3"):
+            if op == "refine" and (grid == (3, 3, 3) and keep is None):
+                continue
+            for _ in range(reps):
+                mesh = build_mesh(rng, shape, grid=grid, keep=keep)
+                n = mesh["num"][3]
+                rk = [rank_of(mesh["pos"][k]) for k in range(n)]
+                R = max(rk) + 1
+                rows = [[c for c in range(n) if rk[c] == r] for r in range(R)]
+                if rng.random() < 0.3:
+                    for l in rows:
+                        rng.shuffle(l)
+                if op == "extract":
+                    out.append("extract %s %s %s" % (shape, fmt_mesh(mesh, False), fmt_graph(n, rows)))
+                else:
+                    out.append("refine %s 1 %s %s" % (shape, fmt_mesh(mesh, True), fmt_graph(n, rows)))
+    return out
+
+
 def gen_split(rng):
     """a base-mesh mesh part (e.g. a boundary part): arbitrary entity lists per dimension, in arbitrary order"""
     shape = rng.choice(["h1", "h2", "h2", "s2", "s2", "h3", "s3"])
@@ -253,6 +311,29 @@ def gen_split(rng):
         lists.append(l)
     return "split %s %s %s %s" % (shape, fmt_mesh(mesh, False), fmt_graph(n_img, rows),
                                   " ".join(("%d %s" % (len(l), " ".join(map(str, l)))).strip() for l in lists))
+
+
+def gen_hsplit(rng):
+    """two-level partition: parents (explicit assignment) and, inside every parent, 1-3 child patches"""
+    shape = rng.choice(["h1", "h2", "h2", "s2", "s2", "h3", "s3"])
+    mesh = build_mesh(rng, shape)
+    n_img, rows, tag = gen_partition(rng, mesh)
+    while tag in ("empty-rank", "count-mismatch"):
+        n_img, rows, tag = gen_partition(rng, mesh)
+    child = [0] * n_img
+    for l in rows:
+        k = rng.randrange(1, min(3, len(l)) + 1)
+        ch = [rng.randrange(k) for _ in l]
+        for j in range(k):
+            if j not in ch:
+                for i in rng.sample(range(len(l)), len(l)):
+                    if ch.count(ch[i]) > 1:
+                        ch[i] = j
+                        break
+        for cc, x in zip(l, ch):
+            child[cc] = x
+    return "hsplit %s %s %s %d %s" % (shape, fmt_mesh(mesh, False), fmt_graph(n_img, rows), len(child),
+                                      " ".join(map(str, child)))
 
 
 def gen_refine(rng):
@@ -656,6 +737,77 @@ def oracle(case, out):
                         return "patch %d: split mesh part dimension %d refers to base %s, parent part restricted to the patch is %s" % (
                             r, d, [T[d][i] for i in got[d]], [T[d][i] for i in exp[d]])
             return None
+        if op == "hsplit":
+            num, IS, _ = c.mesh_in(D, False)
+            n_img, rows = c.graph_in()
+            child = c.lst()
+            if is_abnormal(out):
+                return "two-level halo splitting ended with " + out
+            adj = adjacent_cells(D, num, IS)
+            par_of = {cc: a for a, l in enumerate(rows) for cc in l}
+            # parent patch numbering: cells as given, lower dimensions ascending base order
+            TP = [[sorted(e for e in range(num[d]) if any(par_of[cc] == a for cc in adj[d][e])) for d in range(D)] + [rows[a]]
+                  for a in range(len(rows))]
+            kids_of = [sorted({child[cc] for cc in rows[a]}) for a in range(len(rows))]
+
+            def ents(a, ch, d):
+                return {e for e in range(num[d]) if any(par_of[cc] == a and child[cc] == ch for cc in adj[d][e])}
+
+            o = Tk(out)
+            o.expect("HS")
+            if o.nat() != len(rows):
+                return "number of parent patches"
+            got = {}
+            base_of = {}
+            for a in range(len(rows)):
+                o.expect("P")
+                nc = o.nat()
+                if nc != len(kids_of[a]) or kids_of[a] != list(range(nc)):
+                    return "parent %d: %d children reported, expected %s" % (a, nc, kids_of[a])
+                for ch in range(nc):
+                    o.expect("K")
+                    ct = [o.lst() for _ in range(D + 1)]
+                    for d in range(D + 1):
+                        if any(i >= len(TP[a][d]) for i in ct[d]):
+                            return "child (%d,%d): patch part index out of range" % (a, ch)
+                        b = [TP[a][d][i] for i in ct[d]]
+                        if len(set(b)) != len(b) or set(b) != ents(a, ch, d):
+                            return "child (%d,%d): dimension %d part is %s, its cells have the entities %s" % (
+                                a, ch, d, sorted(b), sorted(ents(a, ch, d)))
+                        base_of[(a, ch, d)] = b
+                    o.expect("H")
+                    for _ in range(o.nat()):
+                        b2, dh = o.nat(), o.nat()
+                        ls = [o.lst() for _ in range(D + 1)]
+                        if (a, ch, b2, dh) in got:
+                            return "duplicate child halo"
+                        for d in range(D + 1):
+                            if any(i >= len(base_of[(a, ch, d)]) for i in ls[d]):
+                                return "child halo (%d,%d)->(%d,%d): index out of range" % (a, ch, b2, dh)
+                        got[(a, ch, b2, dh)] = [[base_of[(a, ch, d)][i] for i in ls[d]] for d in range(D + 1)]
+            for a in range(len(rows)):
+                for ch in kids_of[a]:
+                    for b2 in range(len(rows)):
+                        if b2 == a:
+                            continue
+                        for dh in kids_of[b2]:
+                            shared = [ents(a, ch, d) & ents(b2, dh, d) for d in range(D + 1)]
+                            key = (a, ch, b2, dh)
+                            if not any(shared):
+                                if key in got:
+                                    return "child halo (%d,%d)->(%d,%d) exists but the patches share nothing" % key
+                                continue
+                            if key not in got:
+                                return "children (%d,%d) and (%d,%d) share entities but have no halo" % key
+                            for d in range(D + 1):
+                                if len(set(got[key][d])) != len(got[key][d]) or set(got[key][d]) != shared[d]:
+                                    return "child halo (%d,%d)->(%d,%d) dimension %d = base %s, shared entities are %s" % (
+                                        a, ch, b2, dh, d, got[key][d], sorted(shared[d]))
+                                other = got.get((b2, dh, a, ch))
+                                if other is not None and other[d] != got[key][d]:
+                                    return "child halos (%d,%d)<->(%d,%d) list dimension %d in different order: %s vs %s" % (
+                                        a, ch, b2, dh, d, got[key][d], other[d])
+            return None
         if op == "refine":
             depth = c.nat()
             num, IS, coords = c.mesh_in(D, True)
@@ -741,7 +893,7 @@ def _parse_case(case):
         return op, c.tok(), None
     shape = c.tok()
     D = DIM[shape]
-    if op == "extract" or op == "wf" or op == "split":
+    if op == "extract" or op == "wf" or op == "split" or op == "hsplit":
         num, IS, _ = c.mesh_in(D, False)
         n_img, rows = c.graph_in()
         return op, shape, (num, IS, n_img, rows)
@@ -823,6 +975,23 @@ def describe(case):
                     vert_pairs = {frozenset((owner[a], owner[b])) for s in adj[0] for a in s for b in s if owner[a] != owner[b]}
                     if vert_pairs - facet_pairs:
                         keys.append("class:neighbours-without-common-facet")
+                if D == 3:
+                    level = {}
+                    for dd in (0, 1, 2):
+                        for sset in adj[dd]:
+                            rs = {owner[a] for a in sset}
+                            for a in rs:
+                                for b in rs:
+                                    if a != b:
+                                        level[(a, b)] = max(level.get((a, b), 0), dd)
+                    kinds = {}
+                    for (a, b), lv in level.items():
+                        kinds.setdefault(a, set()).add(lv)
+                    names = {0: "vertex-only", 1: "edge-only", 2: "face"}
+                    for lv in sorted({lv for v in kinds.values() for lv in v}):
+                        keys.append("contact3d:" + names[lv])
+                    if any(2 in v and (0 in v or 1 in v) for v in kinds.values()):
+                        keys.append("contact3d:rank-with-face-and-lower-contacts")
                 for r, l in enumerate(rows):
                     seen, todo = {l[0]}, [l[0]]
                     ls = set(l)
@@ -872,7 +1041,7 @@ def main(argv):
         rp = json.load(open(args.replay))
         case = rp["input"]
         op = case.split()[0]
-        if op in ("extract", "p2l", "split"):
+        if op in ("extract", "p2l", "split", "hsplit", "refine"):
             streams = [vlib.Stream(rp.get("stream", "replay"), [case], [binary], drv, oracle=oracle, nontrivial=nontrivial,
                                    describe=describe, signature=signature, canon=canon)]
         elif op == "wf":
@@ -886,14 +1055,15 @@ def main(argv):
         if os.path.isdir(cdir):
             for fn in sorted(os.listdir(cdir)):
                 corpus += [l.strip() for l in open(os.path.join(cdir, fn)) if l.strip() and not l.startswith("#")]
-        c_ext = [l for l in corpus if l.split()[0] in ("extract", "p2l", "split")]
+        c_ext = [l for l in corpus if l.split()[0] in ("extract", "p2l", "split", "hsplit")]
         c_oth = [l for l in corpus if l.split()[0] == "refine"]
         c_aut = [l for l in corpus if l.split()[0] == "auto"]
-        n_ext, n_big, n_p2l, n_ref, n_auto, n_iter = (1500, 60, 300, 260, 120, 60) if quick else (20000, 1200, 3000, 4000, 1500, 600)
-        ext = CORPUS_EXTRACT + c_ext + [gen_extract(rng) for _ in range(n_ext)] + [gen_extract(rng, True) for _ in range(n_big)]
+        n_ext, n_big, n_p2l, n_ref, n_auto, n_iter = (1500, 60, 300, 260, 120, 60) if quick else (14000, 800, 3000, 3000, 1500, 600)
+        ext = CORPUS_EXTRACT + c_ext + gen_contacts(rng, "extract", 2 if quick else 8) + [gen_extract(rng) for _ in range(n_ext)] + [gen_extract(rng, True) for _ in range(n_big)]
         spl = [gen_split(rng) for _ in range(n_ext // 5)]
+        hsp = [gen_hsplit(rng) for _ in range(n_ext // 5 if quick else n_ext // 10)]
         p2l = [gen_p2l(rng) for _ in range(n_p2l)]
-        ref = c_oth + [gen_refine(rng) for _ in range(n_ref)]
+        ref = c_oth + gen_contacts(rng, "refine", 1 if quick else 4) + [gen_refine(rng) for _ in range(n_ref)]
         aut = c_aut + [gen_auto(rng, False) for _ in range(n_auto)] + [gen_auto(rng, True) for _ in range(n_iter)]
         wf = ["wf" + l[len("extract"):] for l in ext if l.startswith("extract")]
         streams = [
@@ -901,10 +1071,12 @@ def main(argv):
                         signature=signature, canon=canon),
             vlib.Stream("split-meshpart", spl, [binary], drv, oracle=oracle, nontrivial=nontrivial, describe=describe,
                         signature=signature, canon=canon),
+            vlib.Stream("split-halo-2level", hsp, [binary], drv, oracle=oracle, nontrivial=nontrivial, describe=describe,
+                        signature=signature, canon=canon),
             vlib.Stream("parti2lvl", p2l, [binary], drv, oracle=oracle, nontrivial=nontrivial, describe=describe,
                         signature=signature, canon=canon),
             vlib.Stream("hypotheses", wf, drv, None, oracle=oracle_wf, nontrivial=lambda c: False),
-            vlib.Stream("refined", ref, [binary], None, oracle=oracle, nontrivial=nontrivial, describe=describe,
+            vlib.Stream("refined", ref, [binary], drv, oracle=oracle, nontrivial=nontrivial, describe=describe,
                         signature=signature, canon=canon),
             vlib.Stream("partitioners", aut, [binary], None, oracle=oracle, nontrivial=nontrivial, describe=describe,
                         signature=signature, canon=canon),
@@ -912,12 +1084,17 @@ def main(argv):
     stats_rule = ("conforming 1-D/2-D/3-D meshes (quads, triangles, hexahedra, tetrahedra; grids with holes, random cell / "
                   "vertex / edge / face numbering and orientation), 1..#cells ranks, explicit assignments (random, blocks, "
                   "checkerboard, stripes; unsorted rows; empty rank and cell-count mismatch as abort classes), every rank "
-                  "extracted with the real extract_patch; 0-2 joint refinements and the built-in partitioners are judged by "
-                  "the oracle only; non-trivial = >= 3 ranks and a vertex shared by >= 3 patches")
+                  "extracted with the real extract_patch; deterministic 3-D contact configurations on every run (2x2x2 one "
+                  "cell per rank, 3x3x3 checkerboards, L-shapes, diagonal cells; hexahedra and tetrahedra) so that face-, "
+                  "edge-only and vertex-only neighbours follow each other in the halo factory's discovery order; 1-2 joint "
+                  "refinements and the two-level halo splitter are compared with the Lean model AND judged by the oracle; "
+                  "the built-in partitioners by the oracle only; non-trivial = >= 3 ranks and a vertex shared by >= 3 patches")
     rc = vlib.run_pipeline(PROP, args.tier, args.seed, lean, streams, t0, assumptions=[
         "Index modelled as unbounded Nat (no 64-bit overflow at the sizes FEAT can allocate)",
         "meshes are conforming (Mesh.consistent); the refined base mesh printed by FEAT is taken as the base mesh of "
         "the refined level (its conformity is property C10)",
-        "PartiIterative is time-seeded: judged on its output only (oracle), not modelled"],
+        "PartiIterative is time-seeded: judged on its output only (oracle), not modelled",
+        "two-level halo splitting: the MPI transport of the serialized split halos (parti_domain_control_base.hpp) is "
+        "replaced by handing the buffer of serialize_split_halo directly to intersect_split_halo"],
         extra_cov={"rule": stats_rule})
     return rc
